@@ -179,6 +179,11 @@ impl TreeBuilderSimulator {
     }
 
     #[inline]
+    pub fn ns_depth(&self) -> usize {
+        self.ns_stack.len()
+    }
+
+    #[inline]
     fn enter_ns(&mut self, ns: Namespace) -> TreeBuilderFeedback {
         self.ns_stack.push(ns);
         self.current_ns = ns;
